@@ -29,6 +29,7 @@ type Pointer struct {
 	Obj  int   // heap object id; 0 = nil
 	Path []int // struct field / array index path from the object's root value
 	BIdx *Term // non-nil: points at byte element BIdx of the ByteArr located at Path
+	Gen  int   // generation of a recycled pool buffer this reference was obtained for
 	Fn   *ssa.Function // pointer-like handle for *ssa.Function globals (unused)
 }
 
